@@ -5,6 +5,9 @@ open Verif.Props.C09
 #print axioms svg_path_output_parses
 #print axioms svg_path_lex_roundtrip
 #print axioms xml_lex_roundtrip
+#print axioms xml_lex_sound
+#print axioms xml_accepted_in_accepted_out
+#print axioms xml_passes_defined
 #print axioms xml_output_relexes_partial
 #print axioms xml_output_markup_exact
 #print axioms xml_output_relexes_counterexample
